@@ -146,6 +146,73 @@ func c11Boundaries(c *Ctx) {
 	}
 }
 
+// ---------- a leaf without a name ----------
+//
+// `dialsenv:""` (or a `dials` tag without a word) leaves a leaf with no documented variable: no variable may set it,
+// with or without a prefix - in particular not the variable that is the prefix plus the joining underscore.  The
+// unchanged code refuses such a type with an error; either answer is fine, a leaf filled from nobody's name is not.
+
+type c11NCfg struct {
+	Token string `dialsenv:""`
+	Port  int
+}
+
+type c11NCfg2 struct {
+	Secret string `dials:"_"`
+	Port   int
+}
+
+func c11Nameless(c *Ctx) {
+	res := c.Res
+	for _, pfx := range []string{"", "C11N", "X"} {
+		for ti, T := range []reflect.Type{reflect.TypeOf(c11NCfg{}), reflect.TypeOf(c11NCfg2{})} {
+			pt := ptrify.Pointerify(T, reflect.New(T).Elem())
+			vars := map[string]string{"PORT": "1", pfx + "_PORT": "2", pfx + "_": "leaked", "_": "leaked", pfx: "leaked", pfx + "__": "leaked", "SECRET": "not-its-name", pfx + "_SECRET": "not-its-name", "TOKEN": "not-its-name", pfx + "_TOKEN": "not-its-name"}
+			for k, v := range vars {
+				if k != "" && !strings.Contains(k, "=") {
+					os.Setenv(k, v)
+				}
+			}
+			cs := map[string]any{"stream": "a leaf without a name", "type": T.String(), "prefix": pfx, "env": vars}
+			var out reflect.Value
+			var err error
+			pn := catch(func() { out, err = (&env.Source{Prefix: pfx}).Value(context.Background(), dials.NewType(pt)) })
+			for k := range vars {
+				if k != "" {
+					os.Unsetenv(k)
+				}
+			}
+			res.Count("nameless/" + map[bool]string{true: "error", false: "ok"}[err != nil])
+			switch {
+			case pn != "":
+				res.Add(Finding{Kind: "violation", What: "env source panicked: " + pn, Case: cs})
+			case err == nil:
+				// accepted: then the nameless leaf is unset
+				if txt := fmt.Sprintf("%+v", reflect.Indirect(out).Interface()); c11HasLeak(out) {
+					res.Add(Finding{Kind: "violation", What: "a leaf that has no documented variable was set from the environment", Case: cs, Observed: txt})
+				}
+			}
+			res.Case(fmt.Sprintf("N|%s|%d", pfx, ti), pfx != "", cs)
+		}
+	}
+}
+
+func c11HasLeak(v reflect.Value) bool {
+	switch v.Kind() {
+	case reflect.Ptr:
+		return !v.IsNil() && c11HasLeak(v.Elem())
+	case reflect.Struct:
+		for i := 0; i < v.NumField(); i++ {
+			if c11HasLeak(v.Field(i)) {
+				return true
+			}
+		}
+	case reflect.String:
+		return v.String() == "leaked" || v.String() == "not-its-name"
+	}
+	return false
+}
+
 // ---------- names and texts at the byte level ----------
 //
 // Exported field names whose first letter takes two, three or four bytes of UTF-8 survive every chain like ASCII ones,
